@@ -20,7 +20,12 @@ package identity
 
 // The tag-map identity is a hash: nothing but "no effects" may be relied on
 // (two different tag maps can have the same identity).
+// ASSUMED contract of the dependency: hashing a string has no effects.
+//@ extern func github.com/twmb/murmur3.StringSum64
+//@   ensures @no_effects len(calls) == old(len(calls))
+
 //@ func StringStringMap
 //@   property C13
-//@   trusted
 //@   ensures @no_effects len(calls) == old(len(calls))
+//@   ensures @caller_map_untouched forall k string :: (k in m) == old(k in m) && (k in m ==> m[k] == old(m[k]))
+//@   loop 1 invariant @no_effects len(calls) == old(len(calls))
